@@ -109,3 +109,5 @@ SPEC = dict(new_safety_failures_are_violations=True, contracts=['c07_leaf.h', 'n
             assumptions=['type invariants only: enum parameters hold an enumerator, vectors have at most 2^20 elements, NDSize rank <= 32 with dims of exactly rank elements',
                          'sampled axis: interval and offset are grid constants (symbolic division does not terminate); the position is any double',
                          'NOT covered: sequences of API calls, handle lifetimes, libhdf5 internals, operator new failure'])
+
+SPEC['assumptions'] = list(SPEC.get('assumptions', [])) + ["session 3: BaseTagHDF5::getFeature - the feature group is a ghost table (count; per feature: data array gone?, its name and id), shared_ptr handles are records with a null flag; Variant::set(const char*) - strlen is a ghost with the C library's non-null precondition; DataFrameDimensionHDF5::checkColumnIndex - the column list is its length"]
